@@ -538,7 +538,7 @@ def inline_asm(rest, rt, dst, cx, out, setv):
         if sub is None: sub = 'verif_garbage_ecx()'
         for k in range(4): cx.decl['%s_f%d' % (base, k)] = 'uint32_t'
         out.append('  verif_cpuid(%s, %s, &%s_f0, &%s_f1, &%s_f2, &%s_f3);' % (leaf, sub, base, base, base, base)); return
-    if 'xgetbv' in text:
+    if 'xgetbv' in text or '0x0f, 0x01, 0xd0' in text.lower():
         for k in range(2): cx.decl['%s_f%d' % (base, k)] = 'uint32_t'
         out.append('  verif_xgetbv(%s, &%s_f0, &%s_f1);' % (targs[0][1] if targs else '0', base, base)); return
     raise Unsupported('inline asm: ' + text[:60])
